@@ -102,6 +102,13 @@ class Atomizer:
                 return x if d.endswith('eq') else ('not', x)
             if c == 'core::slice::<impl [T]>::contains':
                 return self.atom(('in', self.norm(e['args'][1]), self.norm(e['args'][0])))
+            if d in ('std::cmp::PartialOrd::lt', 'std::cmp::PartialOrd::gt', 'std::cmp::PartialOrd::le', 'std::cmp::PartialOrd::ge'):
+                a, b = self.norm(e['args'][0]), self.norm(e['args'][1])
+                op = d.split('::')[-1]
+                if op == 'lt': return self.atom(('lt', a, b))
+                if op == 'gt': return self.atom(('lt', b, a))
+                if op == 'le': return ('not', self.atom(('lt', b, a)))
+                return ('not', self.atom(('lt', a, b)))
         if k in ('VarRef', 'UpvarRef', 'Field'): return self.atom(('flag', self.norm(e)))
         if k == 'Literal' and e.get('lit') == 'Bool': return ('const', e['value'])
         raise ValueError('guard construct %s: %s' % (k, pp(e)[:60]))
@@ -160,14 +167,55 @@ def rule_max_clique(F, R):
         R.violation('max_clique_gen::main / L / anchor', 'UNDECIDABLE', 'max_clique_gen::main not found'); return
     sites = push_sites(t, is_push_to('edges_complement'))
     R.count('L:complement-push-sites', len(sites))
-    def spec(a):
-        D = not a[('eq', 'v1', 'v2')]
-        U = a[('flag', 'is_undirected')]
-        E12 = a[('in', '(v1,v2)', 'edges')]
-        if U:
-            return D and not (E12 or a[('in', '(v2,v1)', 'edges')] or a[('in', '(v2,v1)', 'edges_complement')])
-        return D and not E12
-    truth_table(R, 'max_clique_gen::main', 'complement-edge insertion', sites, spec, t['span']['loc'])
+    # pair-level specification: for two distinct vertices a, b the constraint -(a & b) is emitted (in either orientation, whichever is
+    # visited first) iff a and b are NOT adjacent, where adjacent = (-u ? E(a,b) or E(b,a) : E(a,b) and E(b,a)); never for a == b
+    A = Atomizer()
+    try:
+        conds = []
+        for (_call, pcs) in sites:
+            cs = []
+            for (c_, pol) in pcs:
+                if c_['k'] == 'Let': cs.append(('const', True)); continue
+                x = A.conv(c_)
+                cs.append(x if pol else ('not', x))
+            conds.append(cs)
+    except ValueError as ex:
+        R.violation('max_clique_gen::main / L / UNDECIDABLE complement-edge insertion', 'UNDECIDABLE', 'cannot interpret the guard of the complement-edge insertion: %s' % ex, t['span']['loc']); return
+    known = {('eq', 'v1', 'v2'), ('flag', 'is_undirected'), ('in', '(v1,v2)', 'edges'), ('in', '(v2,v1)', 'edges'), ('in', '(v2,v1)', 'edges_complement'),
+             ('in', '(v1,v2)', 'edges_complement'), ('lt', 'v1', 'v2'), ('lt', 'v2', 'v1')}
+    unknown = [k for k in A.atoms if k not in known]
+    if unknown:
+        R.violation('max_clique_gen::main / L / UNDECIDABLE guard atoms', 'UNDECIDABLE', 'the complement-edge guard depends on %s, which the specification does not mention' % unknown, t['span']['loc']); return
+    def g(asg): return any(all(ev(c_, asg) for c_ in cs) for cs in conds)
+    def orient(U, Eab, Eba, L, Cba, Cab, first):
+        # first=True: (v1,v2) = (a,b); else (b,a)
+        e12, e21 = (Eab, Eba) if first else (Eba, Eab)
+        return {('eq', 'v1', 'v2'): False, ('flag', 'is_undirected'): U, ('in', '(v1,v2)', 'edges'): e12, ('in', '(v2,v1)', 'edges'): e21,
+                ('in', '(v2,v1)', 'edges_complement'): Cba if first else Cab, ('in', '(v1,v2)', 'edges_complement'): Cab if first else Cba,
+                ('lt', 'v1', 'v2'): L if first else (not L), ('lt', 'v2', 'v1'): (not L) if first else L}
+    bad = []
+    for U in (False, True):
+        for Eab in (False, True):
+            for Eba in (False, True):
+                for L in (False, True):
+                    adjacent = (Eab or Eba) if U else (Eab and Eba)
+                    for ab_first in (True, False):
+                        if ab_first:
+                            g1 = g(orient(U, Eab, Eba, L, False, False, True)); g2 = g(orient(U, Eab, Eba, L, False, g1, False))
+                        else:
+                            g1 = g(orient(U, Eab, Eba, L, False, False, False)); g2 = g(orient(U, Eab, Eba, L, g1, False, True))
+                        emitted = g1 or g2
+                        R.count('L:truth-table-rows'); R.obligation(emitted == (not adjacent), 'L pair %s' % ((U, Eab, Eba, L, ab_first),))
+                        if emitted != (not adjacent):
+                            bad.append({'-u': U, 'E(a,b)': Eab, 'E(b,a)': Eba, 'a<b': L, '(a,b) visited first': ab_first, 'constraint emitted': emitted})
+    # self pairs never produce a constraint
+    for m in range(1 << 6):
+        asg = {('eq', 'v1', 'v2'): True, ('flag', 'is_undirected'): bool(m & 1), ('in', '(v1,v2)', 'edges'): bool(m & 2), ('in', '(v2,v1)', 'edges'): bool(m & 2),
+               ('in', '(v2,v1)', 'edges_complement'): bool(m & 8), ('in', '(v1,v2)', 'edges_complement'): bool(m & 8), ('lt', 'v1', 'v2'): False, ('lt', 'v2', 'v1'): False}
+        if g(asg): bad.append({'self pair': True, **{str(k): v for k, v in asg.items()}}); break
+    R.sample({'rule': 'L', 'fn': 'max_clique_gen::main', 'what': 'pair-level complement-edge table', 'atoms': [str(k) for k in A.atoms]})
+    if bad:
+        R.violation('max_clique_gen::main / L / complement-edge insertion', 'L', 'for a pair of vertices the constraint -(a & b) must be emitted iff they are not adjacent; disagreement in %d case(s), e.g. %s' % (len(bad), bad[0]), t['span']['loc'])
     # the pushed pair is (v1, v2)
     for (call, _) in sites:
         a = Atomizer().norm(call['args'][1])
